@@ -312,6 +312,14 @@ def c16(run, args):
                                               "INVARIANTS NoOverlap InOrderOnce StoredBeforeDeleted NothingLost NoStranded\nCHECK_DEADLOCK FALSE\n" % (msgs, pe, re_, sn, sb))
     F, T = "FALSE", "TRUE"
     run.model_check("DispatcherImpl", disp_cfg("1, 2, 3" if quick else "1, 2, 3, 4", F, F, F, F), label="DispatcherImpl (as written)", workers=4)
+    live_cfg = lambda sb: ("SPECIFICATION FairSpec\nCONSTANTS\n  Msgs = {1, 2}\n  PerEvent = FALSE\n  RetireEarly = FALSE\n  SplitNames = FALSE\n  SharedBatch = %s\n"
+                           "PROPERTIES EventuallyHandled\nCHECK_DEADLOCK FALSE\n" % sb)
+    run.model_check("DispatcherImpl", live_cfg(F), label="DispatcherImpl liveness: EventuallyHandled", workers=2)
+    rc, out, dt = run.tlc("DispatcherImpl", live_cfg(T), workers=2, timeout=600, heap="4g")
+    lost = "Temporal property EventuallyHandled was violated" in out
+    run.cov["stages"].append({"stage": "model-check", "module": "DispatcherImpl liveness (SharedBatch=TRUE)", "mode": "prediction", "violated_as_predicted": ["EventuallyHandled"] if lost else [], "wall_s": round(dt, 1)})
+    if not lost:
+        raise Inconclusive("the deviation SharedBatch of DispatcherImpl no longer violates EventuallyHandled: model and check have drifted apart")
     for name, flags in (("PerEvent", (T, F, F, F)), ("RetireEarly", (F, T, F, F)), ("SplitNames", (F, F, T, F)), ("SharedBatch", (F, F, F, T))):
         rc, out, dt = run.tlc("DispatcherImpl", disp_cfg("1, 2", *flags), workers=4, timeout=600, heap="4g")
         predicted = [x for x in ("NoOverlap", "InOrderOnce", "StoredBeforeDeleted", "NothingLost") if ("Invariant %s is violated" % x) in out]
